@@ -8,13 +8,20 @@ PRELOAD_NETWORK_ORDERS = [["btc", "xtn", "ltc", "bch", "grs", "doge", "dash", "b
 LEVEL = "exploration"
 TECHNIQUE = ("runtime monitor on address.for_script / parse.address / contract.info_for_script / for_info / key.address on every "
              "usable network; expected texts and scripts from an independent Base58Check/Bech32/template model; all ordered "
-             "network pairs for cross-acceptance; mutated-template and random scripts for classification fidelity")
+             "network pairs for cross-acceptance; mutated-template and random scripts for classification fidelity; one text object "
+             "(parseable_str / str) offered to many networks and entry points in varying order; Base58 addresses constructed "
+             "arithmetically to begin with the HRP / key-text / name tags of the network")
 RULE = ("cases: (network, kind, hash) for kind in P2PKH/P2SH/P2WPKH/P2WSH/P2TR x hashes {zeros, ff, random}; (network, key, "
         "compression) for plain / BIP32 / BIP49 / BIP84 / electrum keys; (network, text) for checksummed strings with each "
         "declared Base58 prefix x payload length 0..40 (and the key lengths) and bech32/bech32m strings with the HRP x version "
         "0..16 x program length x both checksum constants x case; (A, B, kind) for every ordered pair of networks; scripts = "
         "standard templates canonical, with each push re-encoded by PUSHDATA1/2/4, with one opcode altered, with leading / "
         "trailing bytes, truncated, with off-by-one data lengths, multisig m/n variations, and random byte / opcode strings. "
+        "(network, kind, hash) additionally for hashes computed so that the Base58 text begins with '<hrp>1' (every registered "
+        "HRP, every letter-case pattern), the SEC tag, the symbol or the extended-key lead of the network; histories = one text "
+        "object (network.parseable_str_type(text) or one str) x a sequence of (network, entry point) calls: every usable "
+        "network in random order, every related network (same network_name / prefix / HRP) before and after the producer, "
+        "every address entry point of one network in random order, with unjudged key-parser calls interleaved. "
         "Non-trivial = non-empty script or text; distinct by the case tuple.")
 ASSUMPTIONS = [
     "declared prefixes / HRP are read from the network object; for BTC, XTN, XRT, LTC, XLT, DOGE, DASH, ZEC they are additionally "
@@ -27,6 +34,13 @@ ASSUMPTIONS = [
     "BIP49 / BIP84 node addresses are checked on every network through keys.bip49_deserialize / bip84_deserialize "
     "(P2SH-P2WPKH needs the P2SH prefix, P2WPKH the HRP; None is expected where the network declares none)",
     "GRS, TGRS, GRSRT are skipped: groestlcoin_hash is not installed",
+    "parse.payable, parse(), parse.<kind> and contract.for_address are alternative entry points of parse.address: on an address "
+    "text they must give a Contract (object with script() and info()) for the same script; any other result counts as rejection",
+    "a text object that was shown to other networks / entry points before must be treated like a fresh one: a network must accept "
+    "every Base58Check text with its prefix and a 20-byte body and every lower-case segwit text it would itself write, and "
+    "accept nothing it would not write; upper / mixed-case bech32 may be accepted or rejected",
+    "results must not depend on what the caller did to dicts returned earlier (Contract.info(), info_for_script) and for_info "
+    "must not modify the dict it is given",
 ]
 EXPLANATION = ("round trip, independent expected text, key address, acceptance-implies-canonical, cross-network acceptance and "
                "classification fidelity are each decided by comparison with the reference model; nothing is inferred from pycoin's own output alone")
@@ -54,11 +68,12 @@ def configurations(tier):
 
 def plan(tier, seed):
     if tier == "quick":
-        nn, nc, ns, scale, scripts = 6, 4, 6, 4, 90000
+        nn, nc, ns, nr, scale, scripts = 6, 4, 6, 4, 4, 90000
     else:
-        nn, nc, ns, scale, scripts = 16, 16, 32, 400, 40000000
+        nn, nc, ns, nr, scale, scripts = 16, 16, 32, 16, 400, 40000000
     shards = [{"kind": "nets", "slice": i, "of": nn, "scale": scale, "label": "nets%d" % i} for i in range(nn)]
     shards += [{"kind": "cross", "slice": i, "of": nc, "scale": scale, "label": "cross%d" % i} for i in range(nc)]
+    shards += [{"kind": "reuse", "slice": i, "of": nr, "scale": scale, "label": "reuse%d" % i} for i in range(nr)]
     shards += [{"kind": "classify", "slice": i, "of": ns, "n": scripts // ns, "label": "classify%d" % i} for i in range(ns)]
     return shards
 
@@ -77,9 +92,109 @@ def builder(net, kind):
 
 
 # ---------------------------------------------------------------------------------------------
+# Base58 addresses whose text begins with a chosen word (texts that look like another format to a parser that
+# dispatches on the shape of the text). Constructed by interval arithmetic, not by search.
+
+def body_with_lead(prefix, blen, lead, rng):
+    """-> body (blen bytes) such that Base58Check(prefix + body) starts with `lead`, or None when no such body exists."""
+    if not lead or any(ch not in RB.ALPHABET for ch in lead):
+        return None
+    total = len(prefix) + blen + 4
+    k = len(lead) - len(lead.lstrip("1"))           # leading '1' characters = leading zero bytes
+    rest = lead[k:]
+    if not rest:
+        return None
+    # value range of the non-zero part of prefix + body + checksum
+    lo0 = int.from_bytes(prefix, "big") << (8 * (blen + 4))
+    hi0 = (int.from_bytes(prefix, "big") + 1) << (8 * (blen + 4))
+    lo0, hi0 = max(lo0, 1 << (8 * (total - k - 1))), min(hi0, 1 << (8 * (total - k)))
+    if lo0 >= hi0:
+        return None
+    v = 0
+    for ch in rest:
+        v = v * 58 + RB.ALPHABET.index(ch)
+    cands = []
+    for digits in range(len(rest), int(total * 1.37) + 2):
+        sc = 58 ** (digits - len(rest))
+        lo, hi = max(lo0, v * sc), min(hi0, (v + 1) * sc)
+        # all four checksum bytes must stay inside the interval
+        plo, phi = -(-lo >> 32), (hi >> 32) - 1
+        if plo <= phi:
+            cands.append((plo, phi))
+    rng.shuffle(cands)
+    for plo, phi in cands:
+        pv = rng.randrange(plo, phi + 1)
+        body = (pv & ((1 << (8 * blen)) - 1)).to_bytes(blen, "big")
+        if RB.encode_check(prefix + body).startswith(lead):
+            return body
+    return None
+
+
+def case_patterns(word, limit=64):
+    """every letter-case spelling of `word` (at most `limit`, the plain / upper / title ones first)."""
+    out = [word, word.upper(), word.lower(), word.title(), word.swapcase()]
+    letters = [i for i, ch in enumerate(word) if ch.isalpha()]
+    if len(letters) <= 6:
+        for m in range(1 << len(letters)):
+            w = list(word.lower())
+            for j, i in enumerate(letters):
+                if m >> j & 1:
+                    w[i] = w[i].upper()
+            out.append("".join(w))
+    seen = []
+    for w in out:
+        if w not in seen:
+            seen.append(w)
+    return seen[:limit]
+
+
+def lead_words(P, all_hrps):
+    """words another text format of this network (or of a sibling) starts with: '<hrp>1', SEC tag, symbol, key-text leads."""
+    words = []
+    for hrp in ([P.hrp] if P.hrp else []) + [h for h in all_hrps if h != P.hrp]:
+        words += [("hrp", w) for w in case_patterns(hrp + "1", 64 if hrp == P.hrp else 6)]
+        words += [("hrp_bare", w) for w in case_patterns(hrp, 4)] if hrp == P.hrp else []
+    tag = (P.sec_prefix or "").rstrip(":")
+    for w in case_patterns(tag, 4) if tag else []:
+        words.append(("sec_tag", w))
+    for w in case_patterns(P.symbol or "", 4) if P.symbol else []:
+        words.append(("symbol", w))
+    for k, prefix in P.b58_prefixes():
+        if k in KT.BIP_KINDS or k == "wif":
+            n = 74 if k in KT.BIP_KINDS else 33
+            a, b = RB.encode_check(prefix + bytes(n)), RB.encode_check(prefix + b"\xff" * n)
+            common = 0
+            while common < min(len(a), len(b)) and a[common] == b[common]:
+                common += 1
+            if common:
+                words.append(("keytext", a[:min(common, 4)]))
+    seen, out = set(), []
+    for cls, w in words:
+        if w not in seen:
+            seen.add(w)
+            out.append((cls, w))
+    return out
+
+
+def shaped_hashes(P, all_hrps, rng, per_word=1):
+    """-> list of (kind, hash, class, word) for P2PKH / P2SH addresses of this network that begin with a lead word."""
+    out = []
+    for cls, w in lead_words(P, all_hrps):
+        for kind in KT.B58_ADDR_KINDS:
+            prefix = P.prefix(kind)
+            if prefix is None:
+                continue
+            for _ in range(per_word):
+                h = body_with_lead(prefix, 20, w, rng)
+                if h is not None:
+                    out.append((kind, h, cls, w))
+    return out
+
+
+# ---------------------------------------------------------------------------------------------
 # (i) round trip, (ii) expected text, standard-script classification
 
-def check_kind(sym, net, P, kind, h, rec):
+def check_kind(sym, net, P, kind, h, rec, alias=True):
     case = {"op": "kind", "net": sym, "kind": kind, "h": h}
     s = KT.script_for(kind, h)
     exp = KT.address_text(P, kind, h)
@@ -102,6 +217,14 @@ def check_kind(sym, net, P, kind, h, rec):
         return
     rec.ev("address.for_script")
     st, got = observe(net.address.for_script, s)
+    # the direct encoders and the info-based ones are the same mapping seen from other entry points
+    rec.ev("address.direct_encoders")
+    for name, f, arg in (("for_" + DIRECT[kind], getattr(net.address, "for_" + DIRECT[kind]), h), ("for_script_info", net.address.for_script_info, info),
+                         ("contract.new.address", lambda i: net.contract.new(i).address(), info)):
+        st2, got2 = observe(f, arg)
+        if (st2, got2) != (st, got) and not (exp is None and st2 == "ok" and got2 is None):
+            rec.violation("address.entry_points_disagree." + name.replace("for_" + DIRECT[kind], "direct"), dict(case, entry=name), got2, got)
+            return
     if exp is None:
         rec.ev("kind_without_declared_prefix")
         if st == "ok" and isinstance(got, str):
@@ -137,6 +260,86 @@ def check_kind(sym, net, P, kind, h, rec):
     rec.ev("contract.for_address")
     if st != "ok" or sc != s:
         rec.violation("roundtrip.for_address_differs." + kind, case, sc, s)
+        return
+    # the other entry points that read an address text
+    for entry in (kind, "payable", "call"):
+        rec.ev("parse.entry." + ("kind" if entry == kind else entry))
+        st, o = observe(ENTRY[entry], net, exp)
+        sc = observe(o.script)[1] if st == "ok" and is_contract(o) else None
+        if sc != s:
+            rec.violation("roundtrip.entry_point_differs." + ("kind_parser" if entry == kind else entry), dict(case, entry=entry), o if sc is None else sc, s)
+            return
+    if alias:
+        check_alias(sym, net, kind, h, s, exp, obj, case, rec)
+
+
+DIRECT = {"p2pkh": "p2pkh", "p2sh": "p2sh", "p2pkh_segwit": "p2pkh_wit", "p2sh_segwit": "p2sh_wit", "p2tr": "p2tr"}
+
+
+def is_contract(o):
+    return o is not None and callable(getattr(o, "script", None)) and callable(getattr(o, "info", None))
+
+
+ENTRY = {
+    "address": lambda net, t: net.parse.address(t),
+    "payable": lambda net, t: net.parse.payable(t),
+    "call": lambda net, t: net.parse(t),
+    "for_address": lambda net, t: net.contract.for_address(t),
+    "p2pkh": lambda net, t: net.parse.p2pkh(t),
+    "p2sh": lambda net, t: net.parse.p2sh(t),
+    "p2pkh_segwit": lambda net, t: net.parse.p2pkh_segwit(t),
+    "p2sh_segwit": lambda net, t: net.parse.p2sh_segwit(t),
+    "p2tr": lambda net, t: net.parse.p2tr(t),
+}
+# calls whose results are C18's subject; here they only precede / follow the judged ones on the same text object
+NOISE = {
+    "wif": lambda net, t: net.parse.wif(t),
+    "bip32": lambda net, t: net.parse.bip32(t),
+    "bip49": lambda net, t: net.parse.bip49(t),
+    "bip84": lambda net, t: net.parse.bip84(t),
+    "hierarchical_key": lambda net, t: net.parse.hierarchical_key(t),
+    "private_key": lambda net, t: net.parse.private_key(t),
+    "secret": lambda net, t: net.parse.secret(t),
+    "public_key": lambda net, t: net.parse.public_key(t),
+    "script": lambda net, t: net.parse.script(t),
+}
+
+
+def check_alias(sym, net, kind, h, s, exp, obj, case, rec):
+    """what the caller does with a returned dict, or with the dict it passes in, must not show in later results."""
+    rec.ev("alias.history")
+    other = bytes(b ^ 0x5a for b in h)
+    st, held = observe(obj.info)
+    if st == "ok" and isinstance(held, dict):
+        for k in list(held):
+            if isinstance(held[k], bytes):
+                held[k] = other                      # the caller edits the dict it was handed
+    st, info = observe(net.contract.info_for_script, s)
+    before = dict(info) if st == "ok" and isinstance(info, dict) else None
+    st2, re = observe(net.contract.for_info, info)
+    if st != "ok" or st2 != "ok" or re != s:
+        rec.violation("alias.later_classification_shows_callers_edit", case, re, s)
+        return
+    if info != before:
+        rec.violation("alias.for_info_modifies_argument", case, info, before)
+        return
+    info.clear()
+    info["type"] = "unknown"
+    info["script"] = other
+    for step in ("address.for_script", "parse.address", "contract.for_address"):
+        if step == "address.for_script":
+            st, got = observe(net.address.for_script, s)
+            ok = st == "ok" and got == exp
+        elif step == "parse.address":
+            st, o = observe(net.parse.address, exp)
+            got = observe(o.script)[1] if st == "ok" and is_contract(o) else o
+            ok = got == s and observe(o.address) == ("ok", exp)
+        else:
+            st, got = observe(net.contract.for_address, exp)
+            ok = st == "ok" and got == s
+        if not ok:
+            rec.violation("alias.later_result_shows_callers_edit." + step, dict(case, step=step), got, exp if step == "address.for_script" else s)
+            return
 
 
 def check_published(sym, net, P, rec):
@@ -219,6 +422,10 @@ def check_key(sym, net, P, se, rec):
     st, got = observe(net.address.for_p2s, wp)
     if st != "ok" or got != KT.address_text(P, "p2sh", KT.hash160(wp)):
         rec.violation("address.p2s_differs_from_reference", case, got, KT.address_text(P, "p2sh", KT.hash160(wp)))
+    want = KT.address_text(P, "p2sh_segwit", __import__("hashlib").sha256(wp).digest())
+    st, got = observe(net.address.for_p2s_wit, wp)
+    if st != "ok" or got != want:
+        rec.violation("address.p2s_wit_differs_from_reference", case, got, want)
     # hierarchical keys: BIP32 -> P2PKH, BIP49 -> P2SH-P2WPKH, BIP84 -> P2WPKH (compressed key)
     blob = KT.node_blob(3, b"\x01\x02\x03\x04", 5, bytes(range(32)), se=se)
     want = {"bip32": exp[True],
@@ -349,10 +556,20 @@ def run_nets(spec, rec, good):
             hashes = [bytes(L), b"\xff" * L, bytes(range(L)), b"\x00" * (L - 1) + b"\x01"] + shaped + [rbytes(rng, L) for _ in range(16 * scale)]
             for h in hashes:
                 check_kind(sym, net, P, kind, h, rec)
+        # Base58 addresses that begin like another text format of this (or a sibling) network
+        all_hrps = sorted({NETS.params_of(n).hrp for _, n in good} - {None})
+        for kind, h, cls, word in shaped_hashes(P, all_hrps, rng, per_word=1 if scale <= 4 else 8):
+            rec.ev("shaped_text." + cls)
+            if cls == "hrp" and word.lower() == (P.hrp or "") + "1":
+                rec.ev("shaped_text.own_hrp")
+            check_kind(sym, net, P, kind, h, rec, alias=False)
         for se in [1, 2, N - 1] + [rng.randrange(1, N) for _ in range(2 * scale)]:
             check_key(sym, net, P, se, rec)
         for text in accept_workload(P, rng, scale):
             check_accept(sym, net, P, text, rec)
+        # queries issued after the failed / rejected calls above
+        for kind in KINDS:
+            check_kind(sym, net, P, kind, rbytes(rng, HLEN[kind]), rec)
         rec.ev("net." + sym)
         if sym == "BTC" or len(rec.samples) < 1:
             h = rbytes(rng, 20)
@@ -379,6 +596,32 @@ def check_cross(a_sym, b_sym, b_net, PB, kind, text, rec):
     rec.ev("cross.shared_encoding")
 
 
+def check_override(a_sym, a_net, b_sym, b_net, PB, kind, h, text, rec):
+    """a Contract read on A and moved to B (Contract.override_network) is B's contract for the same script."""
+    case = {"op": "override", "from": a_sym, "net": b_sym, "kind": kind, "h": h, "text": "t:" + text}
+    rec.case(("override", a_sym, b_sym, kind, h))
+    st, obj = observe(a_net.parse.address, text)
+    s = KT.script_for(kind, h)
+    if st != "ok" or not is_contract(obj) or observe(obj.script) != ("ok", s):
+        return          # judged by the round trip on A
+    rec.ev("contract.override_network")
+    st, moved = observe(obj.override_network, b_net)
+    want = KT.address_text(PB, kind, h)
+    sc = observe(moved.script)[1] if st == "ok" and is_contract(moved) else None
+    if sc != s:
+        rec.violation("override.script_differs", case, moved if sc is None else sc, s)
+        return
+    st, got = observe(moved.address)
+    if want is None:
+        rec.ev("override.kind_without_declared_prefix")
+    elif st != "ok" or got != want:
+        rec.violation("override.address_is_not_the_other_networks", case, got, want)
+        return
+    # and the original object still speaks for A
+    if observe(obj.address) != ("ok", text) or observe(obj.script) != ("ok", s):
+        rec.violation("override.changes_original_contract", case, observe(obj.address)[1], text)
+
+
 def run_cross(spec, rec, good):
     scale = spec.get("scale", 1)
     params = {sym: NETS.params_of(net) for sym, net in good}
@@ -387,21 +630,171 @@ def run_cross(spec, rec, good):
         rng = shard_rng(spec["seed"], PROPERTY, "cross", a_sym)
         PA = params[a_sym]
         texts = []
+        first = {}
         for kind in KINDS:
             for h in [rbytes(rng, HLEN[kind]) for _ in range(1 + scale)] + [bytes(HLEN[kind])]:
                 t = KT.address_text(PA, kind, h)
                 if t is not None:
                     texts.append((kind, t))
+                    first.setdefault(kind, (h, t))
         for b_sym, b_net in good:
             if b_sym == a_sym:
                 continue
             rec.ev("cross.pair")
             for kind, t in texts:
                 check_cross(a_sym, b_sym, b_net, params[b_sym], kind, t, rec)
-    rec.require("cross.pair", "cross.parse.address")
+            for kind, (h, t) in first.items():
+                check_override(a_sym, a_net, b_sym, b_net, params[b_sym], kind, h, t, rec)
+    rec.require("cross.pair", "cross.parse.address", "contract.override_network")
     if spec["slice"] == 0:
         n = len(good)
         rec.note("cross-network: %d usable networks, %d ordered pairs over all cross shards" % (n, n * (n - 1)))
+
+
+# ---------------------------------------------------------------------------------------------
+# (i) + (v) on a reused text object: one parseable_str (or one str) offered to several networks / entry points in turn
+
+KIND_ENTRIES = ("p2pkh", "p2sh", "p2pkh_segwit", "p2sh_segwit", "p2tr")
+ANY_ENTRIES = ("address", "address", "address", "for_address", "payable", "call")
+
+
+_ANALYSIS = {}
+
+
+def expectation(P, text, entry):
+    """-> (scripts the call may return, must it accept) for a judged entry point, from the reference model."""
+    key = (P.symbol, text)
+    if key not in _ANALYSIS:
+        if len(_ANALYSIS) > 20000:
+            _ANALYSIS.clear()
+        _ANALYSIS[key] = KT.address_script(P, text)
+    scripts, A = _ANALYSIS[key]
+    # the text is one the network itself writes: any Base58Check text with its prefix and a 20-byte body, or the
+    # lower-case segwit text (other spellings of a bech32 string may be accepted or not)
+    must = bool(scripts) and (A.payload is not None or text == text.lower())
+    if entry in KIND_ENTRIES:
+        # a parser named after one kind has to accept the texts of that kind; whatever it accepts must denote the script
+        v = A.kinds.get(entry)
+        must = must and bool(v) and v[0] == "ok"
+    return scripts, must
+
+
+def run_history(text, carrier, steps, nets, params, rec, origin=""):
+    """steps = [(symbol, entry)]; all calls receive the SAME text object."""
+    case = {"op": "reuse", "net": steps[0][0], "text": "t:" + text, "carrier": carrier, "steps": " ".join("%s:%s" % x for x in steps), "origin": origin}
+    rec.case(("reuse", text, carrier, tuple(steps)))
+    rec.ev("reuse.history." + carrier)
+    if carrier == "pstr":
+        st, obj = observe(nets[steps[0][0]].parseable_str_type, text)
+        if st != "ok" or obj != text:
+            rec.violation("reuse.parseable_str_type_unusable", case, obj, text)
+            return
+    else:
+        obj = "".join(list(text))          # one plain str object of our own
+    seen = set()
+    for i, (sym, entry) in enumerate(steps):
+        net = nets[sym]
+        if entry in NOISE:
+            rec.ev("reuse.noise_call")
+            observe(NOISE[entry], net, obj)
+            continue
+        rec.ev("reuse.call." + ("kind_parser" if entry in KIND_ENTRIES else entry))
+        if seen and sym not in seen:
+            rec.ev("reuse.call_after_other_network")
+        seen.add(sym)
+        scripts, must = expectation(params[sym], text, entry)
+        st, o = observe(ENTRY[entry], net, obj)
+        if entry == "for_address":
+            sc = o if st == "ok" and isinstance(o, bytes) else None
+            addr = None
+        else:
+            sc = observe(o.script)[1] if st == "ok" and is_contract(o) else None
+            addr = observe(o.address)[1] if sc is not None else None
+        if not isinstance(sc, bytes):
+            sc = None
+        here = dict(case, net=sym, failing_step=i)
+        if sc is None:
+            rec.ev("reuse.rejected")
+            if must:
+                rec.violation("reuse.%s.rejects_address_it_writes" % carrier, here, o, sorted(scripts))
+                return
+            continue
+        rec.ev("reuse.accepted")
+        if sc not in scripts:
+            rec.violation("reuse.%s.accepts_address_it_would_not_write" % carrier, here, sc, sorted(scripts))
+            return
+        if addr is not None and must and addr != text:
+            rec.violation("reuse.%s.contract_of_other_network" % carrier, here, addr, text)
+            return
+    if obj != text:
+        rec.violation("reuse.text_object_changed", case, str(obj), text)
+
+
+def related_networks(a_sym, good, params):
+    """networks that share the coin name, a Base58 prefix or the HRP with a_sym (what a cache key could conflate)."""
+    PA = params[a_sym]
+    name = {sym: getattr(net, "network_name", None) for sym, net in good}
+    out = []
+    for sym, _ in good:
+        if sym == a_sym:
+            continue
+        PB = params[sym]
+        if name[sym] == name[a_sym] or any(getattr(PA, f) is not None and getattr(PA, f) == getattr(PB, f) for f in ("p2pkh", "p2sh", "hrp", "wif")):
+            out.append(sym)
+    return out
+
+
+def run_reuse(spec, rec, good):
+    scale = spec.get("scale", 1)
+    nets = dict(good)
+    params = {sym: NETS.params_of(net) for sym, net in good}
+    syms = [s for s, _ in good]
+    all_hrps = sorted({p.hrp for p in params.values()} - {None})
+    mine = good[spec["slice"]::spec["of"]]
+    per_kind = 2 if scale <= 4 else 120
+    for a_sym, a_net in mine:
+        rng = shard_rng(spec["seed"], PROPERTY, "reuse", a_sym)
+        PA = params[a_sym]
+        texts = []
+        for kind in KINDS:
+            for h in [rbytes(rng, HLEN[kind]) for _ in range(per_kind)]:
+                t = KT.address_text(PA, kind, h)
+                if t is not None:
+                    texts.append(t)
+                    if kind in KT.SEGWIT_KINDS and rng.random() < 0.5:
+                        texts.append(t.upper())
+        shaped = shaped_hashes(PA, all_hrps, rng)
+        for kind, h, cls, word in rng.sample(shaped, min(len(shaped), 3 if scale <= 4 else 40)):
+            texts.append(KT.address_text(PA, kind, h))
+        if PA.wif is not None:
+            texts.append(KT.wif_text(PA, rng.randrange(1, N)))
+        rel = related_networks(a_sym, good, params)
+        if any(getattr(nets[b], "network_name", None) == getattr(a_net, "network_name", None) for b in rel):
+            rec.ev("reuse.sibling_networks_share_name")
+        entries = lambda k: [rng.choice(ANY_ENTRIES + KIND_ENTRIES) if rng.random() < 0.8 else rng.choice(sorted(NOISE)) for _ in range(k)]
+        for t in texts:
+            # every network in turn, as a tool that tries one text against the whole registry does
+            for carrier in ("pstr", "str"):
+                order = syms[:]
+                rng.shuffle(order)
+                plain = rng.random() < 0.5
+                run_history(t, carrier, [(s, "address" if plain else rng.choice(ANY_ENTRIES)) for s in order], nets, params, rec, a_sym)
+                rec.ev("reuse.sweep")
+            # the producer and one related network, in both orders, through mixed entry points
+            for b_sym in rel + rng.sample(syms, 2):
+                for first, second in ((a_sym, b_sym), (b_sym, a_sym)):
+                    steps = [(first, e) for e in entries(rng.choice([1, 1, 2]))] + [(second, e) for e in entries(rng.choice([1, 2]))]
+                    if rng.random() < 0.3:
+                        steps += [(first, e) for e in entries(1)]
+                    run_history(t, "pstr" if rng.random() < 0.8 else "str", steps, nets, params, rec, a_sym)
+                    rec.ev("reuse.pair")
+            # every entry point of the producer on one object, in random order
+            steps = [(a_sym, e) for e in ("address", "for_address", "payable", "call") + KIND_ENTRIES + tuple(rng.sample(sorted(NOISE), 3))]
+            rng.shuffle(steps)
+            run_history(t, "pstr", steps, nets, params, rec, a_sym)
+    rec.require("reuse.history.pstr", "reuse.history.str", "reuse.sweep", "reuse.pair", "reuse.accepted", "reuse.rejected",
+                "reuse.call_after_other_network", "reuse.call.address", "reuse.call.payable", "reuse.call.call", "reuse.call.for_address",
+                "reuse.call.kind_parser", "reuse.sibling_networks_share_name")
 
 
 # ---------------------------------------------------------------------------------------------
@@ -594,10 +987,14 @@ def run_shard(spec, rec):
     good, skipped = NETS.usable_networks()
     NETS.require_registry(rec, good, skipped)
     with contextlib.redirect_stdout(io.StringIO()):
-        {"nets": run_nets, "cross": run_cross, "classify": run_classify}[spec["kind"]](spec, rec, good)
+        {"nets": run_nets, "cross": run_cross, "classify": run_classify, "reuse": run_reuse}[spec["kind"]](spec, rec, good)
     if spec["kind"] == "nets":
         rec.require("address.for_script", "parse.address", "contract.info_for_script", "contract.for_info", "key.address",
-                    "bip49.address", "bip84.address", "parse.address.accepts", "parse.address.rejects")
+                    "bip49.address", "bip84.address", "parse.address.accepts", "parse.address.rejects", "address.direct_encoders",
+                    "parse.entry.kind", "parse.entry.payable", "parse.entry.call", "alias.history", "shaped_text.sec_tag")
+        if any(sym == "LTC" for sym, _ in good[spec["slice"]::spec["of"]]):
+            # LTC: version 0x30 ('L...') and HRP 'ltc' are published values, so 'LTC1...' P2PKH addresses exist
+            rec.require("shaped_text.own_hrp")
 
 
 def _text(t):
@@ -622,8 +1019,15 @@ def replay_case(case, rec):
         check_key(sym, net, P, int(case["se"]), rec)
     elif op == "accept":
         check_accept(sym, net, P, _text(case["text"]), rec)
+    elif op == "override":
+        a = network_for_netcode(case["from"])
+        check_override(case["from"], a, sym, net, P, case["kind"], case["h"], _text(case["text"]), rec)
     elif op == "cross":
         check_cross(case["from"], sym, net, P, case["kind"], _text(case["text"]), rec)
+    elif op == "reuse":
+        steps = [tuple(x.split(":")) for x in case["steps"].split()]
+        nets = {s: network_for_netcode(s) for s, _ in steps}
+        run_history(_text(case["text"]), case["carrier"], steps, nets, {s: NETS.params_of(n) for s, n in nets.items()}, rec, case.get("origin", ""))
     elif op == "classify":
         s = case["script"]
         check_classify(sym, net, s if isinstance(s, bytes) else b"", rec)
